@@ -14,9 +14,16 @@ Inductive kind :=
 | KDict (ch : list child)       (* exact dict: key names and values, iteration order *)
 | KSeq (el : list nat)          (* list/tuple/set/frozenset elements, exception args *)
 | KObj (attrs : list child).    (* attribute dictionary, raw names *)
-Record obj := { o_ty : str; o_text : str; o_kind : kind }.
+(* o_sized: an exact dict / list / tuple / set / frozenset, whose text is its element count; otherwise o_text is the
+   object's (guarded) str() *)
+Record obj := { o_ty : str; o_text : str; o_kind : kind; o_sized : bool }.
 Definition heap := list obj.
-Definition dummy_obj : obj := {| o_ty := []; o_text := []; o_kind := KLeaf |}.
+Definition dummy_obj : obj := {| o_ty := []; o_text := []; o_kind := KLeaf; o_sized := false |}.
+Definition kind_count (k : kind) : nat :=
+  match k with KLeaf => 0 | KDict ch => length ch | KSeq el => length el | KObj a => length a end.
+Definition SIZE_PREFIX : str := [83; 105; 122; 101; 58; 32].      (* "Size: " *)
+(* variable_to_string: 'Size: n' for the sized containers (n = ALL their elements, not only the collected ones) *)
+Definition otext (ob : obj) : str := if o_sized ob then SIZE_PREFIX ++ print_nat (kind_count (o_kind ob)) else o_text ob.
 Definition hget (h : heap) (o : nat) : obj := nth o h dummy_obj.
 
 Record cfg := { max_vars : nat; max_coll : nat; max_depth : nat; max_str : nat }.
@@ -76,7 +83,7 @@ Definition attach (t : list (nat * var)) (rs : list vref) (p : parent) (c : vref
   match p with PRoot => (t, rs ++ [c]) | PVar v => (add_child_tbl t v c, rs) end.
 
 Definition record_var (c : cfg) (h : heap) (o : nat) : var :=
-  let full := o_text (hget h o) in
+  let full := otext (hget h o) in
   {| v_ty := o_ty (hget h o); v_val := firstn (max_str c) full;
      v_trunc := (max_str c <? length full)%nat; v_oid := o; v_children := [] |}.
 
